@@ -19,8 +19,10 @@ def iswupper (wc : Nat) : Bool :=
   else false
 
 /-- glibc `iswspace` (generated ranges) -/
-def iswspace (wc : Nat) : Bool :=
-  (List.range UniFold.spaceN).any fun k => cell 32 UniFold.space (2 * k) ≤ wc && wc ≤ cell 32 UniFold.space (2 * k + 1)
+def spaceRanges : List (Nat × Nat) :=
+  (List.range UniFold.spaceN).map fun k => (cell 32 UniFold.space (2 * k), cell 32 UniFold.space (2 * k + 1))
+
+def iswspace (wc : Nat) : Bool := spaceRanges.any fun r => r.1 ≤ wc && wc ≤ r.2
 
 /-- `iswfc` -/
 def iswfc (wc : Nat) : Nat :=
@@ -49,49 +51,57 @@ def iswfc (wc : Nat) : Nat :=
 /-- two's complement decoding of a `w`-bit cell -/
 def addSigned (w : Nat) (x v : Nat) : Nat := if v < 2 ^ (w - 1) then x + v else x + v - 2 ^ w
 
-/-- first loop of `_towcase(wc, 1)`: `casemaps` (16-bit cells: upper, lower, len); `none` = fell through (or `break`) -/
-def scanCasemaps (wc : Nat) : Nat → Nat → Option Nat
-  | _, 0 => none
-  | i, n + 1 =>
-    let up := cell 16 UniFold.casemaps (3 * i)
-    let lo := cell 16 UniFold.casemaps (3 * i + 1)
-    let len := cell 16 UniFold.casemaps (3 * i + 2)
+/-- `casemaps[]` before its terminator: (upper, lower as an 8-bit two's complement cell, len) -/
+def casemapsL : List (Nat × Nat × Nat) :=
+  (List.range UniFold.casemapsN).map fun i =>
+    (cell 16 UniFold.casemaps (3 * i), cell 16 UniFold.casemaps (3 * i + 1), cell 16 UniFold.casemaps (3 * i + 2))
+
+/-- `pairs[]`: (upper, lower) -/
+def pairsL : List (Nat × Nat) :=
+  (List.range UniFold.pairsN).map fun i => (cell 16 UniFold.pairs (2 * i), cell 16 UniFold.pairs (2 * i + 1))
+
+/-- `casemapsl[]`: (upper, lower as a 32-bit two's complement cell, len, `casemaps[i].upper` — what its `break` tests, sic) -/
+def casemapslL : List (Nat × Nat × Nat × Nat) :=
+  (List.range UniFold.casemapslN).map fun i =>
+    (cell 32 UniFold.casemapsl (3 * i), cell 32 UniFold.casemapsl (3 * i + 1), cell 32 UniFold.casemapsl (3 * i + 2),
+     if i < UniFold.casemapsN then cell 16 UniFold.casemaps (3 * i) else 0)
+
+/-- first loop of `_towcase(wc, 1)`: `none` = fell through (or `break`) -/
+def scanCasemaps (wc : Nat) : List (Nat × Nat × Nat) → Option Nat
+  | [] => none
+  | (up, lo, len) :: rest =>
     if up ≤ wc ∧ wc - up < len then
       if lo = 1 then some (wc + 1 - (wc - up) % 2) else some (addSigned 8 wc lo)
     else if up > wc then none
-    else scanCasemaps wc (i + 1) n
+    else scanCasemaps wc rest
 
 /-- second loop: `pairs` -/
-def scanPairs (wc : Nat) : Nat → Nat → Option Nat
-  | _, 0 => none
-  | i, n + 1 =>
-    let up := cell 16 UniFold.pairs (2 * i)
-    if up = wc then some (cell 16 UniFold.pairs (2 * i + 1))
+def scanPairs (wc : Nat) : List (Nat × Nat) → Option Nat
+  | [] => none
+  | (up, lo) :: rest =>
+    if up = wc then some lo
     else if up > wc then none
-    else scanPairs wc (i + 1) n
+    else scanPairs wc rest
 
-/-- third loop: `casemapsl` (32-bit cells); its `break` tests `casemaps[i].upper` (sic) -/
-def scanCasemapsl (wc : Nat) : Nat → Nat → Option Nat
-  | _, 0 => none
-  | i, n + 1 =>
-    let up := cell 32 UniFold.casemapsl (3 * i)
-    let lo := cell 32 UniFold.casemapsl (3 * i + 1)
-    let len := cell 32 UniFold.casemapsl (3 * i + 2)
+/-- third loop: `casemapsl`; its `break` tests `casemaps[i].upper` -/
+def scanCasemapsl (wc : Nat) : List (Nat × Nat × Nat × Nat) → Option Nat
+  | [] => none
+  | (up, lo, len, brk) :: rest =>
     if up ≤ wc ∧ wc - up < len then
       if lo = 1 then some (wc + 1 - (wc - up) % 2) else some (addSigned 32 wc lo)
-    else if cell 16 UniFold.casemaps (3 * i) > wc then none
-    else scanCasemapsl wc (i + 1) n
+    else if brk > wc then none
+    else scanCasemapsl wc rest
 
 /-- `_towcase(wc, 1)` -/
 def towlowerC (wc : Nat) : Nat :=
   if wc < 0x41 ∨ (0x600 ≤ wc ∧ wc ≤ 0xfff) ∨ (0x2e00 ≤ wc ∧ wc ≤ 0xa63f) ∨ (0xa800 ≤ wc ∧ wc ≤ 0xab69) ∨ (0xabc0 ≤ wc ∧ wc ≤ 0xfeff) then wc
   else if 0x10a0 ≤ wc ∧ wc - 0x10a0 < 0x2e then
     if wc > 0x10c5 ∧ wc ≠ 0x10c7 ∧ wc ≠ 0x10cd then wc else wc + 0x2d00 - 0x10a0
-  else match scanCasemaps wc 0 UniFold.casemapsN with
+  else match scanCasemaps wc casemapsL with
     | some r => r
-    | none => match scanPairs wc 0 UniFold.pairsN with
+    | none => match scanPairs wc pairsL with
       | some r => r
-      | none => match scanCasemapsl wc 0 UniFold.casemapslN with
+      | none => match scanCasemapsl wc casemapslL with
         | some r => r
         | none => wc
 
@@ -123,31 +133,32 @@ def towfcSingle (src : Nat) : Int × Nat :=
   else if 0xab70 ≤ src ∧ src ≤ 0xabbf then (0, src - (0xab70 - 0x13a0))
   else single
 
-/-- the `tbl2` loop of `towfc_s` -/
-def scanTbl2 (src : Nat) : Nat → Nat → Option (List Nat)
-  | _, 0 => none
-  | i, n + 1 =>
-    let up := cell 16 UniFold.tbl2 (3 * i)
-    if up = src then some [cell 16 UniFold.tbl2 (3 * i + 1), cell 16 UniFold.tbl2 (3 * i + 2)]
-    else if up > src then none
-    else scanTbl2 src (i + 1) n
+/-- `tbl2[]` before its terminator: (upper, [lower1, lower2]) -/
+def tbl2L : List (Nat × List Nat) :=
+  (List.range UniFold.tbl2N).map fun i =>
+    (cell 16 UniFold.tbl2 (3 * i), [cell 16 UniFold.tbl2 (3 * i + 1), cell 16 UniFold.tbl2 (3 * i + 2)])
 
-def scanTbl3 (src : Nat) : Nat → Nat → Option (List Nat)
-  | _, 0 => none
-  | i, n + 1 =>
-    let up := cell 16 UniFold.tbl3 (4 * i)
-    if up = src then some [cell 16 UniFold.tbl3 (4 * i + 1), cell 16 UniFold.tbl3 (4 * i + 2), cell 16 UniFold.tbl3 (4 * i + 3)]
+/-- `tbl3[]`: (upper, [lower1, lower2, lower3]) -/
+def tbl3L : List (Nat × List Nat) :=
+  (List.range UniFold.tbl3N).map fun i =>
+    (cell 16 UniFold.tbl3 (4 * i), [cell 16 UniFold.tbl3 (4 * i + 1), cell 16 UniFold.tbl3 (4 * i + 2), cell 16 UniFold.tbl3 (4 * i + 3)])
+
+/-- the `tbl2` / `tbl3` loops of `towfc_s` (sorted tables, early `break`) -/
+def scanTbl (src : Nat) : List (Nat × List Nat) → Option (List Nat)
+  | [] => none
+  | (up, l) :: rest =>
+    if up = src then some l
     else if up > src then none
-    else scanTbl3 src (i + 1) n
+    else scanTbl src rest
 
 /-- the part of `_towfc_s_chk` behind the argument checks: (return value, cells of dest before the terminator) -/
 def towfcCore (src : Nat) : Int × List Nat :=
   if src < 128 then
     let d := cell 8 UniFold.tolower128 src
     (if d = src then ESNOTFND_neg else 1, [d])
-  else match scanTbl2 src 0 UniFold.tbl2N with
+  else match scanTbl src tbl2L with
     | some l => (2, l)
-    | none => match scanTbl3 src 0 UniFold.tbl3N with
+    | none => match scanTbl src tbl3L with
       | some l => (3, l)
       | none => let r := towfcSingle src; (r.1, [r.2])
 
